@@ -11,7 +11,7 @@ names = sorted({t for p in props.PROPS.values() for t in p.get('translators', []
 vcheck.run_translators(names)
 vcheck.coq_project()
 PY
-( cd coq && timeout 3000 make -j16 2>&1 | tail -20 )
+( cd coq && timeout 3000 make -k -j16 2>&1 | tail -20 )
 # 2. Rust harness (all binaries) against /repo's current tree, hooks on
 cp -n /repo/Cargo.lock harness/Cargo.lock 2>/dev/null || true
 ( cd harness && timeout 3000 cargo build --release --offline 2>&1 | tail -5 )
